@@ -164,3 +164,14 @@ PROPS['C20'] = {
     'outside': ['arities outside the lattice'],
     'assumptions': [],
 }
+
+PROPS['C14'] = {
+    'kani': {
+        'quick': [krun(['c14::q::'], timeout=1200, bounds='N in {0,1,2,15,16,17} (both sides of the N<16 strategy threshold); all byte values; precision None or symbolic in 0..=2N+2; lower and upper case; fallback encoder (feature faster-hex off)')],
+        'thorough': [krun(['c14::'], timeout=3600, bounds='N in 0..=17 and 31..=33')],
+    },
+    'functions': ['generic_hex', 'hex_encode', 'hex_encode_fallback', 'LowerHex/UpperHex for GenericArray<u8,N>'],
+    'bounds': 'K end to end: N <= 17 (thorough 33), bytes/precision/case symbolic. Sink capacity 96 bytes.',
+    'outside': ['feature faster-hex on: the SIMD kernels (inline asm/intrinsics) cannot be encoded; only the crate-side preconditions are claimed (M)', 'N >= 1023 end to end (the two larger strategies): M decides their index arithmetic per strategy', 'width/fill flags (ignored by the implementation)'],
+    'assumptions': ['precision <= 2N+2'],
+}
